@@ -68,6 +68,32 @@ theorem wrapper_timedelta {Orbit Lines Sat K : Type} (w : Wrapper Orbit Lines Sa
     (h : 0 ≤ (epochUs : Int) + δ) : ∃ us : Nat, (us : Int) = epochUs + δ ∧ w.runDelta o epochUs δ = w.run o us :=
   ⟨((epochUs : Int) + δ).toNat, Int.toNat_of_nonneg h, rfl⟩
 
+/-- Clause 1 with the date as an INSTANT: whatever the epoch of the element set, whatever Earth-orientation data the date carries, the
+library is asked for the UTC clock reading of the requested instant (`tai − off`, `off` = TAI − UTC on the date's own day) — the epoch
+does not enter. -/
+theorem wrapper_instant_eq_reference {Orbit Lines Sat K : Type} (w : Wrapper Orbit Lines Sat K) (parse : Lines → Orbit) (ℓ : Lines)
+    (hregen : w.regen (parse ℓ) = ℓ) (tai off : Int) (us : Nat) (hus : (us : Int) = tai - off) :
+    w.runInstant (parse ℓ) tai off =
+      ((w.propagate (w.twoline2rv ℓ) (utcFields us)).1 ++ (w.propagate (w.twoline2rv ℓ) (utcFields us)).2).map w.scale := by
+  have h : (utcReading tai off).toNat = us := by unfold utcReading; omega
+  simp only [Wrapper.runInstant, Wrapper.run, hregen, h]
+
+/-- Locating the date by "UTC datetime of the epoch + elapsed time since the epoch" gives the UTC reading of the date **iff** TAI − UTC
+is the same at the epoch and at the date: across an inserted second the two differ, by exactly the number of inserted seconds
+(`elapsed_route_error`).  (The reference locates the date by UTC calendar arithmetic, so only `utcReading` is "that instant" for it.) -/
+theorem elapsed_route_eq_iff (taiEpoch offEpoch tai off : Int) :
+    elapsedRoute taiEpoch offEpoch tai = utcReading tai off ↔ offEpoch = off := by
+  unfold elapsedRoute utcReading; omega
+
+theorem elapsed_route_error (taiEpoch offEpoch tai off : Int) :
+    elapsedRoute taiEpoch offEpoch tai - utcReading tai off = off - offEpoch := by
+  unfold elapsedRoute utcReading; omega
+
+/-- element set of 2016-12-31T12:00:00 UTC (TAI − UTC = 36 s), request 2017-01-01T00:30:00 UTC (37 s): the wrapper hands 00:30:00 to the
+library, the elapsed route would hand 00:30:01 -/
+example : utcFields (utcReading 63618827437000000 37000000).toNat = ⟨2017, 1, 1, 0, 30, 0⟩ ∧
+    utcFields (elapsedRoute 63618782436000000 36000000 63618827437000000).toNat = ⟨2017, 1, 1, 0, 30, 1000000⟩ := by decide +kernel
+
 /-- the tuple is a valid civil date and time of day -/
 theorem fields_valid (us : Nat) :
     1 ≤ (utcFields us).year ∧ 1 ≤ (utcFields us).month ∧ (utcFields us).month ≤ 12 ∧ 1 ≤ (utcFields us).day
